@@ -26,7 +26,9 @@ pub mod strs;
 pub mod hstubs;
 pub mod c01_flags;
 pub mod c01_reader;
+pub mod c01_pool;
 pub mod c02_jumps;
+pub mod c02_args;
 pub mod qk;
 pub mod c04_action;
 pub mod c04_map;
@@ -44,7 +46,9 @@ pub fn all() -> Vec<(&'static str, fn())> {
 	let mut v = Vec::new();
 	v.extend_from_slice(c01_flags::LIST);
 	v.extend_from_slice(c01_reader::LIST);
+	v.extend_from_slice(c01_pool::LIST);
 	v.extend_from_slice(c02_jumps::LIST);
+	v.extend_from_slice(c02_args::LIST);
 	v.extend_from_slice(c04_action::LIST);
 	v.extend_from_slice(c04_map::LIST);
 	v.extend_from_slice(c06_remap::LIST);
